@@ -31,7 +31,7 @@ def reports_locations(prog):
 
 def run(rep):
     fams = os.environ.get("C07_FAMS")
-    cases = c05.enumerate_programs(rep, "C07", rep.tier, cfg=ENUM_CFG, env={"FAMS": fams or "TS FO ER"})
+    cases = c05.enumerate_programs(rep, "C07", rep.tier, cfg=ENUM_CFG, env={"FAMS": fams or "TS FO ER EL"})
     if len(cases) < 300 and not fams:
         raise Machinery("enumeration produced only %d programs" % len(cases))
     cnt = {}
